@@ -93,7 +93,8 @@ ASSUMPTIONS = [
     'asyncssh leaves unset is compared with the built-in default printed by '
     'ssh -G -F /dev/null; a file ssh itself refuses is not judged',
     'names are lower case (Host is case-sensitive in ssh, Match host is not)',
-    'no commas in Host patterns, no trailing comments, no `none` values, no '
+    'no commas in Host patterns, no trailing comments, `none` only for '
+    'ProxyJump/ProxyCommand/IdentityAgent (where ssh documents it), no '
     '+/-/^ algorithm list prefixes, never both ProxyJump and ProxyCommand, '
     'ProxyJump never quoted, distinct names within one SetEnv/SendEnv line',
     'undocumented ssh behaviours are avoided rather than judged: RekeyLimit '
@@ -119,7 +120,8 @@ OUT_OF_REACH = ['Match exec / localnetwork / tagged on the asyncssh side',
                 'how the resolved options are consumed by connect()']
 REQUIRED = ['configs', 'ssh_g_comparisons', 'options_compared',
             'match_blocks_hit', 'host_blocks_hit', 'includes_followed',
-            'tokens_checked', 'server_configs', 'unsafe_usernames']
+            'tokens_checked', 'server_configs', 'unsafe_usernames',
+            'none_values_compared']
 BUDGET_S = {'quick': 300, 'thorough': 3000}
 CASE_TIMEOUT_S = 90
 
@@ -160,6 +162,15 @@ OPTS = {
     'EnableSSHKeySign': 'bool', 'IdentityAgent': 'str',
     'PKCS11Provider': 'str',
 }
+# options for which ssh documents `none` as "disabled" (ssh -G prints `none`
+# or nothing; asyncssh stores None)
+NONE_OPTS = ('ProxyJump', 'ProxyCommand', 'IdentityAgent')
+
+
+def _none(name, v):
+    return None if name in NONE_OPTS and v == 'none' else v
+
+
 TOKEN_OPTS = {'IdentityFile', 'CertificateFile', 'IdentityAgent',
               'ProxyCommand', 'RemoteCommand'}
 NOISE = ['LogLevel DEBUG', 'StrictHostKeyChecking yes', 'ControlMaster no',
@@ -332,6 +343,10 @@ class Gen:
         if name == 'PreferredAuthentications':
             return [rng.choice(['publickey,password', 'keyboard-interactive',
                                 'publickey', 'password,publickey'])]
+        if name in NONE_OPTS and rng.random() < 0.2:
+            # `none` is a value like any other for first-obtained-wins: it
+            # switches the feature off and later values must not replace it
+            return ['none']
         if name == 'ProxyJump':
             return [rng.choice(['jump.example.com', 'user@jump:2222',
                                 'j1,user@j2.example.com:2200'])]
@@ -955,7 +970,7 @@ def classify(gen, kind, name, a, path, target, features, fallback=None):
             if name == 'AuthorizedKeysFile':
                 args = [subst_user(x, target['user']) for x in args]
             return norm_args(name, args, True)
-        return _cmp_ref(gen, name, ref, target)
+        return _none(name, _cmp_ref(gen, name, ref, target))
 
     def model(**kw):
         if features['final']:
@@ -1167,9 +1182,12 @@ def check_client(gen, kind, main, target, feats, defaults, mon, viol, info,
                             mon['tokens_checked'] += 1
                         except KeyError:
                             continue
+                want = _none(name, want)
+                if name in NONE_OPTS and want is None:
+                    mon['none_values_compared'] += 1
                 mon['options_compared'] += 1
-                if name in ref.opts and _cmp_ref(gen, name, ref, target) \
-                        != want:
+                if name in ref.opts and \
+                        _none(name, _cmp_ref(gen, name, ref, target)) != want:
                     mon['ref_vs_ssh_mismatch'] += 1
                     info.setdefault('ref_mismatch', []).append(
                         f'{name}: ref={_cmp_ref(gen, name, ref, target)!r} '
@@ -1194,8 +1212,8 @@ def check_client(gen, kind, main, target, feats, defaults, mon, viol, info,
                                   f'{dvals!r}) for {tdesc}; files: {show()}'})
         else:
             # reference is the oracle (relative includes)
-            want = _cmp_ref(gen, name, ref, target) if name in ref.opts \
-                else None
+            want = _none(name, _cmp_ref(gen, name, ref, target)) \
+                if name in ref.opts else None
             if name in TOKEN_OPTS and want is not None:
                 mon['tokens_checked'] += 1
             mon['options_compared'] += 1
